@@ -779,3 +779,9 @@ func (c *Ctx) checkWorklists(fn *ssa.Function, r *Result) {
 		r.Viol("C07.3", c.Name(fn)+"#unbounded-worklist", c.InstrPos(appendCall), "queue is extended inside the loop from data read in the loop, with no visited set and no iteration bound")
 	})
 }
+
+func init() {
+	reg := registry["C07"]
+	reg.Meta.Rules["C07.6"] = "an LZF back-reference never reads bytes that are not there yet: it is expanded byte by byte from the growing output, or by a block copy / self-append whose source range is proven to end inside what has been produced (a longer run slices beyond the buffer and panics, or repeats stale bytes)"
+	reg.Rules = append(reg.Rules, func(c *Ctx, r *Result) { lzfOverlapRule(c, r, "C07.6") })
+}
